@@ -82,6 +82,9 @@ def check(chk, fx):
     diag_a(chk, fx)
     diag_t(chk, fx)
     diag_s(chk, fx)
+    from .. import golden, goldenreg
+    golden.group(chk, fx, "DIAG", "reference summaries of the listing functions (what is printed, under which condition)",
+                 goldenreg.GROUPS["DIAG"])
     enums = c05._enum_values(fx)
     c05.conf(chk, fx, enums)
     lr.all_table_rules(chk, fx)
@@ -198,6 +201,10 @@ def diag_a(chk, fx):
                 chk.violation("DIAG-A", A.site(f, node), "DIAG-A:prefer-shift-operand",
                               "after '%s' the listing prints %s: for a shift cell arg is the target state, not a rule" %
                               (lab, txt.replace(ENTRY_T, "entry")))
+            elif txt.startswith("?"):
+                chk.violation("DIAG-A", A.site(f, node), "DIAG-A:prefer-shift-carried",
+                              "after '%s' the listing prints the reassigned local %s: a value carried from another column "
+                              "of the state, not the reduce item of THIS column's lookahead (%s)" % (lab, txt, allowed[0][:60]))
             else:
                 chk.ok("DIAG-A", A.site(f, node), "after '%s' prints %s (not the shift target)" % (lab, txt[:80]))
             continue
